@@ -367,6 +367,18 @@ func (ex *Exec) heapArr(st *State, key, valSort string) *Term {
 // stores into slices (sliceToo): code that mutates a slice it reaches only through other objects is not modelled.
 func (ex *Exec) havocHeap(st *State) { ex.havocHeapX(st, false) }
 
+// havocHeapOnly: the heap maps only; local cells (captured variables) keep their values.
+func (ex *Exec) havocHeapOnly(st *State) {
+	saved := map[*Cell]Val{}
+	for c, v := range st.cells {
+		saved[c] = v
+	}
+	ex.havocHeapX(st, false)
+	for c, v := range saved {
+		st.cells[c] = v
+	}
+}
+
 func (ex *Exec) havocHeapX(st *State, sliceToo bool) {
 	for k, a := range st.heap {
 		if ex.immutableKeys[k] {
